@@ -315,6 +315,16 @@ def _run_case(spec):
                         costs[cname]['export_seed_kind'] = scratch_cost(e, cs, [x[:1] for x in xs], skip, lv)
                     except Exception:
                         pass
+            # the same metrics with the specification assigned (as a single spec) on the pruned model
+            for cname, cs in cost_specs.items():
+                if 'error' in costs[cname]:
+                    continue
+                try:
+                    pit.cost_specification = cs
+                    costs[cname]['pit_single'] = float(pit.get_cost())
+                except Exception as ex:
+                    costs[cname]['pit_single'] = 'error %s: %s' % (type(ex).__name__, str(ex)[:120])
+            pit.cost_specification = cost_specs
             costs['numel_export'] = numel_params(e)
 
             a['costs'] = costs
